@@ -345,9 +345,9 @@ func (x *ctx) runScenario(sc Scenario, dir string) {
 		}
 	}()
 	leader, _ := startOwn(filepath.Join(dir, "leader"), ownPort())
-	defer leader.Kill()
+	defer func() { leader.Kill() }()
 	lc := leader.MustDial()
-	defer lc.Close()
+	defer func() { lc.Close() }()
 	updating := 0
 	doLeader := func(cmds [][]string) {
 		for _, c := range cmds {
@@ -528,6 +528,42 @@ func (x *ctx) runScenario(sc Scenario, dir string) {
 			if bad {
 				return
 			}
+		case "leader-restart", "leader-lost-tail":
+			// the leader process dies (SIGKILL) and comes back on the same directory; with lost-tail its log has lost
+			// its last records meanwhile (a crash of the machine rather than of the process): the follower is then
+			// AHEAD of its leader and has to give up what the leader no longer has. Reconnect attempts are refused until
+			// the leader has acknowledged the new writes.
+			px.SetPark("reject")
+			lc.Close()
+			leader.Kill()
+			px.KillAll()
+			if st.Fault == "leader-lost-tail" {
+				lb, _ := os.ReadFile(leaderAOF)
+				recs := splitRecords(lb)
+				drop := 1 + si%3
+				if drop > len(recs) {
+					drop = len(recs)
+				}
+				keep := 0
+				for _, r := range recs[:len(recs)-drop] {
+					keep += len(r)
+				}
+				if si%2 == 1 && keep+7 < len(lb) {
+					keep += 7 // torn tail: loadAOF of the leader cuts it off
+				}
+				os.Truncate(leaderAOF, int64(keep))
+				x.dist(fmt.Sprintf("leader-lost-records:%d", drop))
+			}
+			var lport int
+			leader, lport = startOwn(leader.Dir, leader.Port)
+			px.SetTarget(lport)
+			lc = leader.MustDial()
+			doLeader(st.Writes)
+			marker = newMarker()
+			lsize, ackDone = setAcked()
+			fsnap, _ = os.ReadFile(fAOF)
+			fsnapOK = aofSizeOf(follower.Port) == int64(len(fsnap))
+			px.SetPark("")
 		case "pause":
 			expectReconnect = false
 			follower.Signal(syscall.SIGSTOP)
@@ -769,6 +805,138 @@ func sesPos(s *session) interface{} {
 	return s.Pos
 }
 
+// ---- follower-side expiry during catch-up ----
+
+// runExpiryScenario: the follower runs its own expiry sweeper and appends its own "del" records to its log. An object
+// with a 2 s deadline and long names is streamed early; the proxy holds the stream (before the last two records) until
+// the deadline has passed on both servers, delivers one more record and holds again before the marker: the follower
+// has then been handed strictly less than the leader's log as of connect time, and must not report caught up.
+func (x *ctx) runExpiryScenario(dir string) {
+	sc := Scenario{Name: "corpus-own-expiry-during-catchup", Init: "empty"}
+	defer func() {
+		if e := recover(); e != nil {
+			x.fail(hx.Failure{Kind: "oracle", Signature: "harness-panic", What: fmt.Sprintf("scenario %s: %v", sc.Name, e), Case: sc.Name})
+		}
+	}()
+	leader, _ := startOwn(filepath.Join(dir, "leader"), ownPort())
+	defer func() { leader.Kill() }()
+	lc := leader.MustDial()
+	defer lc.Close()
+	px, err := NewProxy(leader.Port)
+	if err != nil {
+		panic(err)
+	}
+	defer px.Close()
+	follower, _ := startOwn(filepath.Join(dir, "follower"), ownPort())
+	defer func() { follower.Kill() }()
+	K, I := strings.Repeat("k", 100), strings.Repeat("i", 100)
+	cmds := [][]string{{"SET", K, I, "EX", "2", "POINT", "1", "1"}, {"SET", "fleet", "a", "POINT", "1", "1"},
+		{"SET", "fleet", "b", "POINT", "2", "2"}, {"SET", "__marker", "m1", "STRING", "m1"}}
+	t0 := time.Now()
+	for _, c := range cmds {
+		if v := lc.MustDo(c...); v.IsErr() {
+			panic(v.String())
+		}
+	}
+	sc.Pre = cmds
+	lb, _ := os.ReadFile(filepath.Join(leader.Dir, "appendonly.aof"))
+	recs := splitRecords(lb)
+	if len(recs) != 4 {
+		panic(fmt.Sprintf("leader log has %d records", len(recs)))
+	}
+	S := int64(len(lb))
+	off2 := S - int64(len(recs[3]))
+	off1 := off2 - int64(len(recs[2]))
+	px.SetPlan(func(pos, lsz int64) int64 {
+		if pos != 0 {
+			return -1
+		}
+		return off1
+	})
+	px.SetPlan2(func(pos, lsz int64) int64 {
+		if pos != 0 {
+			return -1
+		}
+		return off2
+	})
+	x.dist("fault:own-expiry")
+	x.count("own-expiry", true)
+	c := follower.MustDial()
+	if v := c.MustDo("FOLLOW", "127.0.0.1", strconv.Itoa(px.Port)); v.IsErr() {
+		panic("FOLLOW refused: " + v.String())
+	}
+	c.Close()
+	var ses *session
+	for i := 0; i < 1500 && ses == nil; i++ {
+		ses = px.Session(0)
+		time.Sleep(10 * time.Millisecond)
+	}
+	if ses == nil || ses.StallAt < 0 {
+		x.dist("own-expiry-not-set-up")
+		return
+	}
+	select {
+	case <-ses.Stalled:
+	case <-time.After(10 * time.Second):
+		x.dist("own-expiry-not-set-up")
+		return
+	}
+	if d := time.Until(t0.Add(2700 * time.Millisecond)); d > 0 {
+		time.Sleep(d) // the deadline passes on the leader and on the follower (whose sweeper runs every 100 ms)
+	}
+	close(ses.Release)
+	select {
+	case <-ses.Stalled2:
+	case <-time.After(10 * time.Second):
+		x.dist("own-expiry-not-set-up")
+		return
+	}
+	bad := false
+	for i := 0; i < 5 && !bad; i++ {
+		time.Sleep(40 * time.Millisecond)
+		stt := followerStatus(follower.Port)
+		if stt.err == "" && (stt.caughtUp || stt.healthz) {
+			if has, why := hasMarker(follower.Port, "m1"); has == 0 {
+				bad = true
+				x.fail(hx.Failure{Kind: "oracle", Signature: "premature-caught-up-own-expiry",
+					What: fmt.Sprintf("the leader's log had %d bytes when the follower connected; the stream is held after %d bytes (the last acknowledged command, __marker m1, not delivered); an object with EX 2 expired on the follower during the catch-up and the follower's own sweeper appended its del record (about %d bytes) to the follower's log: the follower answers caught_up=%v HEALTHZ ok=%v aof_size=%d although GET __marker m1 -> %s",
+						S, off2, len(srv.Encode("del", K, I)), stt.caughtUp, stt.healthz, stt.aofSize, why),
+					Case: map[string]interface{}{"scenario": sc.Name, "leader": clipCmds(cmds), "held_at": []int64{off1, off2}}})
+			}
+		}
+	}
+	close(ses.Release2)
+	if bad {
+		return
+	}
+	// convergence
+	ok := false
+	for dl := time.Now().Add(20 * time.Second); time.Now().Before(dl) && !ok; time.Sleep(30 * time.Millisecond) {
+		stt := followerStatus(follower.Port)
+		if stt.err == "" && stt.caughtUp && stt.healthz {
+			if has, _ := hasMarker(follower.Port, "m1"); has == 1 {
+				ok = true
+			}
+		}
+	}
+	var ld, fd string
+	eq := false
+	for dl := time.Now().Add(5 * time.Second); ok && time.Now().Before(dl) && !eq; time.Sleep(100 * time.Millisecond) {
+		ld, _ = dumpOf(leader.Port)
+		fd, _ = dumpOf(follower.Port)
+		eq = ld == fd && aofSizeOf(leader.Port) == aofSizeOf(follower.Port)
+	}
+	if !ok || !eq {
+		missing, extra := diffLines(ld, fd)
+		x.fail(hx.Failure{Kind: "oracle", Signature: "own-expiry-no-convergence", What: fmt.Sprintf("after an expiry on both servers during the catch-up: caught up with marker=%v, dumps/aof_size equal=%v (only leader %q, only follower %q, aof_size %d vs %d)",
+			ok, eq, missing, extra, aofSizeOf(leader.Port), aofSizeOf(follower.Port)), Case: sc.Name})
+		return
+	}
+	x.mu.Lock()
+	x.r.TracesImpl++
+	x.mu.Unlock()
+}
+
 // ---- correspondence with the Coq model ----
 
 func hexRecords(recs [][]byte) string {
@@ -855,7 +1023,7 @@ func (x *ctx) correspond(sc Scenario, si int, st Step, ses *session, f, l []byte
 				}
 			}
 		}
-		obs = append(obs, fmt.Sprintf("%d:%s", pos, res))
+		obs = append(obs, fmt.Sprintf("%d:%d:%s", pos, size, res))
 	}
 	trunc := "no"
 	if truncTo >= 0 {
@@ -902,6 +1070,11 @@ func runC06(r *hx.Result, cfg hx.Config) {
 	var scs []Scenario
 	scs = append(scs, corpusScenarios()...)
 	scs = append(scs, boundaryScenario(rand.New(rand.NewSource(7)), "corpus-prefix-record-ends-at-checksumsz"))
+	{ // the former blind spot of "check some": a copy of the leader's log with one byte changed in a block that is not probed
+		r7 := rand.New(rand.NewSource(8))
+		scs = append(scs, Scenario{Name: "corpus-copy-differs-in-unprobed-block", Init: "midflip", Large: true, PrefixCut: 1,
+			Pre: bigCmds(r7, 1700<<10, "L"), Steps: []Step{{Fault: "follow", Stall: 0.5}, {Fault: "restart-kill", Writes: genCmds(r7, 3), Stall: -1}}})
+	}
 	nSmall, nLarge := 14, 0
 	if cfg.Tier == "thorough" {
 		nSmall, nLarge = 60, 18
@@ -933,5 +1106,10 @@ func runC06(r *hx.Result, cfg hx.Config) {
 			x.runScenario(sc, filepath.Join(cfg.Work, fmt.Sprintf("s%03d", i)))
 		}(i, sc)
 	}
+	wg.Add(1)
+	go func() {
+		defer wg.Done()
+		x.runExpiryScenario(filepath.Join(cfg.Work, "expiry"))
+	}()
 	wg.Wait()
 }
